@@ -348,6 +348,25 @@ fn slab(ctx: &Ctx) {
                     ctx.nontrivial(h.get());
                 }
             }
+            // a reorder mapping that is not a permutation (two logical rows on one physical row, or an
+            // entry beyond the slab): the asserted preconditions are about the *physical* rows, so the
+            // paired borrow must refuse - never hand out overlapping or out-of-bounds slices
+            if !mapped {
+                for bad in [vec![0usize, 1, 1, 3, 4, 5], vec![0, 1, 2, 3, 4, n + 2]] {
+                    let mut s2 = SymbolSlab::with_zeros(n, ss);
+                    s2.set_reorder(bad.clone());
+                    let (d, sidx) = if bad[2] == 1 { (1usize, 2usize) } else { (0, 5) };
+                    let r = guarded(|| {
+                        let (a, b) = s2.get_pair_mut(d, sidx);
+                        (a.as_ptr() as usize, a.len(), b.as_ptr() as usize)
+                    });
+                    ops += 1;
+                    if let Ok((a, l, b)) = r {
+                        let overlap = a < b + l && b < a + l;
+                        ctx.violation(format!("C12 slab bad-mapping ss={ss} map={bad:?}"), format!("SymbolSlab::get_pair_mut({d},{sidx}) under the reorder mapping {bad:?} on {n} symbols returned slices at {a:#x} and {b:#x} (overlapping: {overlap}) instead of refusing"), case("bad-mapping", d, sidx));
+                    }
+                }
+            }
             // out of range indices must panic
             for (d, s) in [(n, 0), (0, n), (n + 3, n)] {
                 if !mapped {
@@ -389,6 +408,9 @@ fn codec(ctx: &Ctx) {
 
 fn matrix(ctx: &Ctx) {
     let n = ctx.args.ex_u64("n", 200) as usize;
+    if let Some(w) = ctx.args.ex("maxw") {
+        super::c16walk::WIDTH_CAP.store(w.parse().expect("maxw"), Relaxed);
+    }
     let st: [std::sync::atomic::AtomicU64; 8] = Default::default();
     let nthreads = ctx.args.ex_u64("threads", threads() as u64) as usize;
     par_for_threads(nthreads, n, |i| {
